@@ -55,7 +55,7 @@ def _strategy(draw):
     extra = {"kind": kind, "where": where}
     if kind == "asset":
         cls = draw(st.sampled_from(["simple", "simple", "storage", "transport", "multi", "contract", "orderbook",
-                                    "scaled", "coarse"]))
+                                    "scaled", "coarse", "plant", "chp"]))
         if cls == "coarse":
             a = gen.a_simple(draw, cx, "xe", allow_forms=False)
             if tl.uniform(g) and tl.freq_seconds(g["freq"]) is not None:
@@ -65,6 +65,13 @@ def _strategy(draw):
             a = gen.a_scaled(draw, cx, "xe", base_cls=draw(st.sampled_from(["simple", "storage"])))
         elif cls == "orderbook":
             a = gen.a_orderbook(draw, cx, "xe", n_max=3)
+        elif cls == "plant":
+            a = gen.a_plant(draw, cx, "xe", fuel=False)
+        elif cls == "chp":
+            a = gen.a_chp(draw, cx, "xe") if len(cx.nodes) >= 2 else gen.a_plant(draw, cx, "xe", fuel=False)
+            a["nodes"] = a["nodes"][:2]
+            for k_ in ("fuel_efficiency", "consumption_if_on", "start_fuel"):
+                a.pop(k_, None)
         else:
             a = gen.draw_asset(draw, cx, cls, "xe")
         if a["type"] == "orderbook":
